@@ -208,7 +208,12 @@ func (s *mstate) apply(o op, n int) (src string, want string) {
 		arg := fmt.Sprint(o.Arg)
 		if shapes[s.shape].Kw && o.Step > 0 {
 			step = o.Step
-			arg += fmt.Sprintf(", step: %d", o.Step)
+			if o.Step == 3 {
+				// the keyword arrives through an expansion only (no keyword is written at the call)
+				arg += ", **{step: 3}"
+			} else {
+				arg += fmt.Sprintf(", step: %d", o.Step)
+			}
 		}
 		s.vars = append(s.vars, &mit{i: o.Arg, step: step})
 		return fmt.Sprintf("i%d := gen.new(%s)", k, arg), ""
@@ -284,7 +289,7 @@ func enabled(s *mstate, thorough bool) []op {
 	if len(s.vars) < 3 {
 		ops = append(ops, op{K: "new", Arg: 0}, op{K: "new", Arg: 2})
 		if shapes[s.shape].Kw {
-			ops = append(ops, op{K: "new", Arg: 0, Step: 2})
+			ops = append(ops, op{K: "new", Arg: 0, Step: 2}, op{K: "new", Arg: 0, Step: 3})
 		}
 		for j := range s.vars {
 			ops = append(ops, op{K: "newfrom", J: j, Arg: 1}, op{K: "alias", J: j})
@@ -631,6 +636,27 @@ func judgeCross(c *core.Ctx, f fcase, o panrun.Obs) {
 	c.Violation(core.Violation{Key: "chain-body-steps-another-iterator", Case: core.JSON(f), Desc: strings.ReplaceAll(f.crossSrc(), "\n", "; "), Expected: want, Observed: o.Short(), Repro: "zz := {||\n" + f.crossSrc() + "\n}\nzz().p\n"})
 }
 
+// an iterator whose body raises something other than StopIterErr at its third step: every way of consuming it raises that error
+func runNextRaises(c *core.Ctx) {
+	forms := []string{"a@{|x| x}", "a@^g", "a=@{|x| x}", "a$(0){|s, x| s + x}", "a$(0)^h", "a.A", "a$(0)+", "a@S", "a~@{|x| nil}", "[a.next, a.next, a.next]"}
+	tk.Batched(c, 20, "", func(emit func(fcase)) {
+		for i := range forms {
+			emit(fcase{Mode: "nextraises", Gen: i})
+		}
+	}, func(f fcase) string {
+		return "a := <{|i| yield 12 / (2 - i) if i < 5; recur(i + 1)}>.new(0)\ng := {|x| x}\nh := {|s, x| s + x}\nnil.try.{|u| " + forms[f.Gen] + "}.A"
+	}, func(f fcase, o panrun.Obs) {
+		c.Validated(1)
+		c.Nontrivial(1)
+		c.Outcome("nextraises:" + o.Kind)
+		want := "[nil, [ZeroDivisionErr: cannot be divided by 0]]"
+		if o.Kind == "value" && o.Repr == want {
+			return
+		}
+		c.Violation(core.Violation{Key: "error-of-next-lost-by-consumer", Case: core.JSON(f), Desc: forms[f.Gen] + " over an iterator whose third step divides by zero", Expected: want, Observed: o.Short()})
+	})
+}
+
 func runCross(c *core.Ctx) {
 	tk.Batched(c, 100, "", func(emit func(fcase)) {
 		for a := 0; a <= 4; a++ {
@@ -666,6 +692,7 @@ func run(c *core.Ctx) {
 	runFresh(c)
 	runFactory(c)
 	runCross(c)
+	runNextRaises(c)
 	depth := c.Pick(5, 6)
 	c.Note("depth_after_first_new", depth)
 	states := map[string]bool{}
